@@ -28,6 +28,8 @@ import (
 //   Hooks, BlockFail, Close, Release, Release2, Late   from the session goroutines (before the call / after its return)
 // The log is checked twice: by the monitors below and by TLC against spec/pool/SessionTrace.tla.
 
+var discardedRuns int // runs in which a deadline passed before its command was written (overloaded machine): not evaluated
+
 var tagRe = regexp.MustCompile(`\{([dbp])(\d)\}`)
 
 type dedRun struct {
@@ -41,10 +43,19 @@ type dedRun struct {
 	connOf        map[int]int   // process -> server connection of its current acquisition
 	topo          string
 	multiReturned int64
+	abandonSeen   map[int]chan struct{} // blocking caller -> closed when the server received its hopeless BLPOP
+	abandoned     int64
+	blpopSeen     map[int]bool // dedicated session -> the server received its BLPOP on the empty list
+	untimely      int32        // a deadline passed before its command reached the server: the run says nothing (machine overloaded)
 }
 
 func (r *dedRun) log(ev string, p, conn int, what string, subs, track, multi int, res string) {
-	r.tr.Log(ev, "p", p, "conn", conn, "what", what, "subs", subs, "track", track, "multi", multi, "res", res)
+	r.logB(ev, p, conn, what, subs, track, multi, -1, res)
+}
+
+// logB: blck = 1 when the server still owes the connection the answer to a blocking command (-1: not looked at)
+func (r *dedRun) logB(ev string, p, conn int, what string, subs, track, multi, blck int, res string) {
+	r.tr.Log(ev, "p", p, "conn", conn, "what", what, "subs", subs, "track", track, "multi", multi, "blck", blck, "res", res)
 }
 
 func (r *dedRun) procOfGid() (int, bool) {
@@ -86,6 +97,9 @@ func classify(argv []string) (p int, what string, tagged, late bool) {
 		what = "exec"
 	case up == "SUBSCRIBE":
 		what = "sub"
+	case (up == "BLPOP" || up == "BRPOP") && p >= 4 && len(argv) > 1 && strings.HasSuffix(argv[1], ":empty"):
+		// a blocking caller waits on a list nobody pushes to: the call can only end through its context
+		what = "abandon"
 	case what == "":
 		what = "cmd"
 	}
@@ -130,6 +144,19 @@ func (r *dedRun) sink(ev fakeredis.Event) {
 		r.mu.Unlock()
 	}
 	r.log("Send", p, ev.Conn, what, 0, 0, 0, "")
+	if up == "BLPOP" && tagged && p >= 1 && p <= 3 {
+		r.mu.Lock()
+		r.blpopSeen[p] = true
+		r.mu.Unlock()
+	}
+	if what == "abandon" {
+		r.mu.Lock()
+		if ch := r.abandonSeen[p]; ch != nil {
+			close(ch)
+			delete(r.abandonSeen, p)
+		}
+		r.mu.Unlock()
+	}
 }
 
 func (r *dedRun) hook(point string, obj any, a, b int) {
@@ -150,8 +177,19 @@ func (r *dedRun) hook(point string, obj any, a, b int) {
 		conn := r.connOf[p]
 		delete(r.connOf, p)
 		r.mu.Unlock()
-		subs, track, multi := -1, -1, -1
+		subs, track, multi, blck := -1, -1, -1, -1
 		if cn := r.M.Conn(conn); conn != 0 && cn != nil {
+			blck = 0
+			if cn.Blocked() {
+				blck = 1
+				if point == "pool.store.keep" {
+					r.rep.Violate("connection-returned-with-command-in-flight topo="+r.topo,
+						fmt.Sprintf("process %d returned connection %d to the dedicated pool while the server still owes it the answer to a blocking command: the next holder's commands queue behind a foreign command", p, conn), r.tr.Events())
+					// the finding is recorded; answer the foreign command so that the rest of the run does not spend
+					// every following call waiting for its time-out behind it
+					go r.M.Do("RPUSH", fmt.Sprintf("bl:{b%d}:empty", p), "x")
+				}
+			}
 			chs, pats, sh := cn.Subscriptions()
 			subs = len(chs) + len(pats) + len(sh)
 			track, multi = 0, 0
@@ -174,7 +212,7 @@ func (r *dedRun) hook(point string, obj any, a, b int) {
 				}
 			}
 		}
-		r.log("Store", p, conn, strings.TrimPrefix(point, "pool.store."), subs, track, multi, "")
+		r.logB("Store", p, conn, strings.TrimPrefix(point, "pool.store."), subs, track, multi, blck, "")
 	}
 }
 
@@ -191,7 +229,7 @@ func runDedicated(rep *vh.Report) {
 		tr, mr := dedicatedRun(rep, i, topo)
 		multiReturned += mr
 		if tr != nil {
-			reset := map[string]any{"ev": "RESET", "p": 0, "conn": 0, "what": topo, "subs": 0, "track": 0, "multi": 0, "res": "", "seq": 0}
+			reset := map[string]any{"ev": "RESET", "p": 0, "conn": 0, "what": topo, "subs": 0, "track": 0, "multi": 0, "blck": 0, "res": "", "seq": 0}
 			traces[1+i%2] = append(traces[1+i%2], append([]map[string]any{reset}, tr...))
 			rep.Traces++
 		}
@@ -205,8 +243,8 @@ func runDedicated(rep *vh.Report) {
 			rep.Inconcl("cannot write trace: %v", err)
 		}
 	}
-	rep.Rule = "events of dedicated-session runs (2-3 sessions with WATCH/MULTI/EXEC, Receive, hooks, invalidation tracking, open MULTI, timed-out BLPOP, Close; 2 blocking callers; shared traffic); non-trivial = events of sessions that subscribed, installed hooks, enabled tracking, were closed or called after release"
-	rep.Extra = map[string]any{"connections_returned_inside_MULTI": multiReturned}
+	rep.Rule = "events of dedicated-session runs (2-3 sessions with WATCH/MULTI/EXEC, Receive, hooks, invalidation tracking, open MULTI, timed-out BLPOP, Close; 2 blocking callers that also abandon BLPOPs through cancel-only / deadline contexts (Do and DoMulti); shared traffic); non-trivial = events of sessions that subscribed, installed hooks, enabled tracking, were closed or called after release"
+	rep.Extra = map[string]any{"connections_returned_inside_MULTI": multiReturned, "runs_discarded_deadline_before_write": discardedRuns}
 	rep.Assumptions = append(rep.Assumptions,
 		"commands are attributed to processes by the {dN}/{bN}/{p0} tag in their key or channel; MULTI/EXEC/CLIENT TRACKING ON carry none and are attributed to the holder of their connection",
 		"pool events come from the verif hooks of pool.go (under the pool mutex), server events from fakeredis' dispatcher")
@@ -214,7 +252,7 @@ func runDedicated(rep *vh.Report) {
 
 func dedicatedRun(rep *vh.Report, idx int, topo string) ([]map[string]any, int64) {
 	rng := vh.Rng(int64(9000 + idx))
-	r := &dedRun{tr: &vh.Tracer{}, rep: rep, gidProc: map[int64]int{}, connOf: map[int]int{}, topo: topo}
+	r := &dedRun{tr: &vh.Tracer{}, rep: rep, gidProc: map[int64]int{}, connOf: map[int]int{}, topo: topo, abandonSeen: map[int]chan struct{}{}, blpopSeen: map[int]bool{}}
 	r.M = fakeredis.NewServer("M", fakeredis.Options{})
 	defer r.M.Close()
 	nw := fakeredis.NewNetwork()
@@ -288,6 +326,51 @@ func dedicatedRun(rep *vh.Report, idx int, topo string) ([]map[string]any, int64
 			r.register(p)
 			key := fmt.Sprintf("bl:{b%d}", p)
 			for k := 0; k < 2+brng.Intn(3); k++ {
+				if v := brng.Intn(10); v < 4 {
+					// a blocking call its caller gives up: the list stays empty, only the context ends the call.
+					//   v=0,1  context without deadline, cancelled by hand once the server has the command (the pipe
+					//          queues the command and stays healthy)            v=2  the same through DoMulti
+					//   v=3    context with a deadline (a wire in synchronous mode breaks itself at the deadline)
+					seen := make(chan struct{})
+					r.mu.Lock()
+					r.abandonSeen[p] = seen
+					r.mu.Unlock()
+					var ctx context.Context
+					var cancel context.CancelFunc
+					if v == 3 {
+						ctx, cancel = context.WithTimeout(bg, time.Duration(150+brng.Intn(100))*time.Millisecond)
+					} else {
+						ctx, cancel = context.WithCancel(bg)
+						go func() {
+							select {
+							case <-seen:
+							case <-time.After(20 * time.Second):
+							}
+							time.Sleep(time.Duration(brng.Intn(300)) * time.Microsecond)
+							cancel()
+						}()
+					}
+					cmd := client.B().Blpop().Key(key + ":empty").Timeout(0).Build()
+					var err error
+					if v == 2 {
+						err = client.DoMulti(ctx, cmd)[0].Error()
+					} else {
+						err = client.Do(ctx, cmd).Error()
+					}
+					cancel()
+					atomic.AddInt64(&r.abandoned, 1)
+					select {
+					case <-seen:
+					default:
+						atomic.StoreInt32(&r.untimely, 1) // the deadline passed before the command reached the server
+					}
+					if !errors.Is(err, context.Canceled) && !errors.Is(err, context.DeadlineExceeded) {
+						rep.Violate("dedicated-blocking-call-failed topo="+topo, fmt.Sprintf("abandoned BLPOP of process %d returned %v", p, err), r.tr.Events())
+						return
+					}
+					time.Sleep(time.Duration(brng.Intn(200)) * time.Microsecond)
+					continue
+				}
 				r.M.Do("RPUSH", key, "x")
 				ctx, cancel := context.WithTimeout(bg, 20*time.Second)
 				err := client.Do(ctx, client.B().Blpop().Key(key).Timeout(1).Build()).Error()
@@ -339,6 +422,10 @@ func dedicatedRun(rep *vh.Report, idx int, topo string) ([]map[string]any, int64
 	rueidis.SetVerifHook(nil)
 	events := r.tr.Events()
 	client.Close()
+	if atomic.LoadInt32(&r.untimely) != 0 {
+		discardedRuns++
+		return nil, atomic.LoadInt64(&r.multiReturned)
+	}
 	r.monitors(events)
 	rep.Evaluations += len(events)
 	nt := 0
@@ -346,6 +433,10 @@ func dedicatedRun(rep *vh.Report, idx int, topo string) ([]map[string]any, int64
 		switch e["ev"] {
 		case "Hooks", "Clean", "Close", "Late", "Release2", "BlockFail":
 			nt++
+		case "Send":
+			if e["what"] == "abandon" {
+				nt++
+			}
 		}
 	}
 	rep.DistinctNontrivial += nt
@@ -425,10 +516,18 @@ func (r *dedRun) session(p int, rng *rand.Rand) {
 				d.Do(ctx, d.B().Get().Key("k:"+tag+":t").Build())
 				c()
 			case k == 6: // a blocking command that runs into its deadline
-				ctx, c := context.WithTimeout(bg, 30*time.Millisecond)
+				ctx, c := context.WithTimeout(bg, 60*time.Millisecond)
 				err := d.Do(ctx, d.B().Blpop().Key("bl:"+tag+":empty").Timeout(0).Build()).Error()
 				c()
 				if err != nil {
+					r.mu.Lock()
+					seen := r.blpopSeen[p]
+					r.mu.Unlock()
+					if !seen {
+						// the deadline passed before the command was written (overloaded machine): this is not the
+						// scenario "blocking call outstanding"; the run is not evaluated
+						atomic.StoreInt32(&r.untimely, 1)
+					}
 					r.log("BlockFail", p, 0, "", 0, 0, 0, "")
 					dead = true
 				}
